@@ -505,8 +505,12 @@ func (k *Checker) checkSnapshotStep(n *Node, pre, post *raft.VerifState, ctx *ca
 	switch {
 	case had:
 		k.c.stats.probe("snapshot_fast_forward")
-		if post.Committed != idx || post.LastIndex != pre.LastIndex || post.FirstIndex != pre.FirstIndex {
-			k.report("C09", "sn.install", n, fmt.Sprintf("snapshot (%d,%d) matches the local log: expected commit fast-forward to %d only, got commit %d log [%d,%d]->[%d,%d]", idx, term, idx, post.Committed, pre.FirstIndex, pre.LastIndex, post.FirstIndex, post.LastIndex), "sn.ff")
+		// "at most the commit index is fast-forwarded": commit stays or becomes idx.
+		if (post.Committed != idx && post.Committed != pre.Committed) || post.LastIndex != pre.LastIndex || post.FirstIndex != pre.FirstIndex {
+			k.report("C09", "sn.install", n, fmt.Sprintf("snapshot (%d,%d) matches the local log: expected at most a commit fast-forward to %d, got commit %d->%d log [%d,%d]->[%d,%d]", idx, term, idx, pre.Committed, post.Committed, pre.FirstIndex, pre.LastIndex, post.FirstIndex, post.LastIndex), "sn.ff")
+		}
+		if post.Committed == idx {
+			k.c.stats.probe("snapshot_fast_forward_done")
 		}
 	case installed:
 		k.c.stats.probe("snapshot_installed")
